@@ -23,5 +23,5 @@ func (e *ExpFromZeroAnchoringEvaluator) Spec_BlankParams() FunctionParams {
 
 func (e *ExpFromZeroAnchoringEvaluator) Spec_Evaluate(params FunctionParams, difference float64) float64 {
 	p := params.(*utils.ExpFromZeroFunction)
-	return p.Evaluate(difference)
+	return p.Spec_Evaluate(difference)
 }
